@@ -15,7 +15,7 @@ VERSIONS = ["1.1", "1.0"]
 CONNS = [None, "close", "Close", "keep-alive", "Keep-Alive", "close, x", "x, close", "keep-alive, x", "x,keep-alive", "x"]
 METHODS = ["GET", "HEAD", "POST", "OPTIONS"]
 BODIES = ["none", "cl", "cl0", "chunked"]
-HANDLERS = ["buffered", "streamed", "early", "earlyflush"]
+HANDLERS = ["buffered", "streamed", "early", "earlyflush", "s304", "s204flush"]
 PING = b"GET /ping HTTP/1.1\r\nHost: h\r\n\r\n"
 
 
@@ -32,6 +32,19 @@ def make_app():
             self.write("he")
             self.flush()
             self.write("llo")
+            self.finish()
+        get = head = post = options = go
+
+    class S304(web.RequestHandler):
+        """a response that has no body and needs no length: self-delimiting on every version"""
+        def go(self):
+            self.set_status(304)
+        get = head = post = options = go
+
+    class S204Flush(web.RequestHandler):
+        def go(self):
+            self.set_status(204)
+            self.flush()
             self.finish()
         get = head = post = options = go
 
@@ -66,7 +79,7 @@ def make_app():
         def get(self):
             self.write("pong")
 
-    return web.Application([("/buffered", Buffered), ("/streamed", Streamed), ("/early", Early), ("/earlyflush", EarlyFlush),
+    return web.Application([("/buffered", Buffered), ("/streamed", Streamed), ("/early", Early), ("/earlyflush", EarlyFlush), ("/s304", S304), ("/s204flush", S204Flush),
                             ("/ping", Ping)])
 
 
@@ -193,7 +206,7 @@ class C03(Check):
             "'close, x', 'x, close', 'keep-alive, x', 'x,keep-alive', x} x method {GET, HEAD, POST, OPTIONS} x request body "
             "{none, Content-Length 5, Content-Length 0, chunked} x no_keep_alive x handler {buffered, streamed "
             "with flush, stream_request_body handler finishing in prepare, stream_request_body handler flushing in prepare "
-            "and finishing after the body}, followed by a pipelined probe request; "
+            "and finishing after the body, 304 response, 204 response flushed before finish}, followed by a pipelined probe request; "
             "thorough adds every single cut of the byte stream; state = one (case, segmentation) execution; "
             "non-trivial = cases where the reference says CLOSE or the Connection header is list-valued")
     claim = ("For every case the observed persistence (probe answered vs connection closed) must equal the "
